@@ -1026,6 +1026,10 @@ fn run_direct(rn: &mut Runner, thorough: bool) {
         ((0..12).map(|i| i as f64).collect(), (0..12).map(|i| i as f64 + 100.0).collect()),
         ((0..101).map(|i| i as f64).collect(), (0..100).map(|i| i as f64 + 0.5).collect()),
         ((0..2000).map(|i| (i * i) as f64).collect(), (0..2000).map(|i| (i * i) as f64).collect()),
+        // identical empirical cdfs, different sizes (the statistic must be exactly 0: the series never ends for 1e-16)
+        (vec![0.0], vec![0.0; 6]),
+        (vec![1.0, 2.0, 3.0], vec![1.0, 1.0, 2.0, 2.0, 3.0, 3.0]),
+        (vec![0.5; 10], vec![0.5; 3]),
         // large, completely separated / strongly shifted samples: D*sqrt(n_eff) ~ 20 and beyond, where every term
         // of the Kolmogorov series underflows to 0
         ((0..800).map(|i| i as f64).collect(), (0..800).map(|i| i as f64 + 1000.0).collect()),
